@@ -198,12 +198,17 @@ func wrapperFold(c *Ctx, fd *ast.FuncDecl, machine string, s string) (wrapperObs
 		return wrapperObs{}, "body outside the path vocabulary: " + why
 	}
 	jsonP := soleParam(c, fd)
+	return wrapperFoldPaths(c, paths, func(t Term) bool { return isParamTerm(t, jsonP) }, machine, s)
+}
+
+// wrapperFoldPaths: the fold over given paths; isInput says which term is the text being parsed.
+func wrapperFoldPaths(c *Ctx, paths []*Path, isInput func(Term) bool, machine string, s string) (wrapperObs, string) {
 	var res *wrapperObs
 	for _, p := range paths {
 		loopVals := map[string]sval{}
 		mem := map[string]sval{} // folded values of addressed locals (the start line), when their stores fold
 		hook := func(t Term) (sval, bool) {
-			if isParamTerm(t, jsonP) {
+			if isInput(t) {
 				return sval{K: 's', S: s}, true
 			}
 			if lv, ok := t.(TLoop); ok {
@@ -224,7 +229,7 @@ func wrapperFold(c *Ctx, fd *ast.FuncDecl, machine string, s string) (wrapperObs
 		var obs wrapperObs
 		stores := map[string]Term{}
 		var call *TCall
-		for _, st := range p.Steps {
+		for si, st := range p.Steps {
 			switch st.Kind {
 			case "cond":
 				e := &strEnv{hook: hook}
@@ -258,12 +263,18 @@ func wrapperFold(c *Ctx, fd *ast.FuncDecl, machine string, s string) (wrapperObs
 					obs.why = "unexpected call of " + st.Call.Fun.Name()
 				}
 			case "loop":
-				fin, why := c.foldLoopMem(st.Loop, hook, 32, mem)
+				var ex loopExit
+				fin, why := c.foldLoopExit(st.Loop, hook, 32, mem, &ex)
 				if why != "" {
 					obs.why = "loop in the wrapper cannot be folded: " + why
 				}
 				for o, v := range fin {
 					loopVals[key(TLoop{o, st.Loop.ID})] = v
+				}
+				// this path is the one taken only when the loop was left the way the path says: from inside by that very round, or not
+				// from inside at all
+				if why == "" && inLoopExitPrefix(p, si) != ex.Idx {
+					feasible = false
 				}
 			}
 			if !feasible {
@@ -520,7 +531,7 @@ func c04Table(c *Ctx) {
 			}
 		}
 		// post: i += size, where size is the decoded size of the rune at json[i:] on every iteration path that continues
-		if good {
+		if good && !m.synthAdv {
 			as, ok := sm.loop.Post.(*ast.AssignStmt)
 			good = ok && as.Tok == token.ADD_ASSIGN && len(as.Lhs) == 1 && c.obj(as.Lhs[0]) == m.idxV && c.obj(as.Rhs[0]) == m.sizeV
 		}
@@ -1193,6 +1204,14 @@ func c04ParseFile(c *Ctx) {
 			ob.Ok("data, err := os.ReadFile(path); err => (nil, err); then exactly the paths of ParseObject with its argument = string(data) (ParseObject's body inlined) — the file's bytes unmodified")
 			return
 		}
+		why = c04ParseFileFolded(c, fd, path)
+		if os.Getenv("ANYCHECK_DEBUG") != "" {
+			fmt.Fprintln(os.Stderr, "c04ParseFileFolded:", why)
+		}
+		if why == "" {
+			ob.Ok("data, err := os.ReadFile(path); err => (nil, err); then code that, folded over all short inputs with string(data) as the text, hands the machine the same suffix and start line as ParseObject and passes its result through the same way — the file's bytes unmodified")
+			return
+		}
 	}
 	ob.Check(good, "data, err := os.ReadFile(path); err => (nil, err); return ParseObject(string(data)) — the file's bytes unmodified", "ParseFile is not os.ReadFile followed by ParseObject on the unmodified bytes (text before the root bracket and line numbers would differ)")
 }
@@ -1350,6 +1369,123 @@ func c04ParseFileInlined(c *Ctx, fd *ast.FuncDecl, path types.Object) string {
 	}
 	if nErr == 0 {
 		return "no path for a failed read"
+	}
+	return ""
+}
+
+// c04ParseFileFolded: the code after the read is not ParseObject's text, but does what ParseObject does: folded over all short inputs
+// (the alphabet and depth of the wrapper rule) both hand the machine the same suffix and the same start line, pass its result through
+// the same way, or both return only an error.
+func c04ParseFileFolded(c *Ctx, fd *ast.FuncDecl, path types.Object) string {
+	po := c.Decl("ParseObject")
+	if po == nil {
+		return "ParseObject not found"
+	}
+	paths, why := c.runPaths(fd)
+	if why != "" {
+		return why
+	}
+	var rest []*Path
+	var data Term
+	nErr := 0
+	for _, p := range paths {
+		if len(p.Steps) < 2 || p.Steps[0].Kind != "call" || p.Steps[0].Call == nil || p.Steps[0].Call.Fun == nil || p.Steps[0].Call.Fun.FullName() != "os.ReadFile" ||
+			len(p.Steps[0].Call.Args) != 1 || !isParamTerm(p.Steps[0].Call.Args[0], path) || p.Steps[1].Kind != "cond" {
+			return "ParseFile does not start with os.ReadFile(path) and the test of its error"
+		}
+		read := *p.Steps[0].Call
+		rerr := Term(TProj{read, 1})
+		data = TProj{read, 0}
+		b, ok := p.Steps[1].Cond.T.(TBin)
+		if !ok || (b.Op != token.EQL && b.Op != token.NEQ) {
+			return "the first decision is not on the read error"
+		}
+		var other Term
+		if sameTerm(b.X, rerr) {
+			other = b.Y
+		} else if sameTerm(b.Y, rerr) {
+			other = b.X
+		}
+		if _, isNil := other.(TNil); !isNil {
+			return "the first decision is not on the read error"
+		}
+		if (b.Op == token.NEQ) == p.Steps[1].Cond.Truth {
+			_, nilRes := p.Vals[0].(TNil)
+			if len(p.Steps) != 2 || p.End != "return" || len(p.Vals) != 2 || !nilRes || !sameTerm(p.Vals[1], rerr) {
+				return "a failed read does not return (nil, err) at once"
+			}
+			nErr++
+			continue
+		}
+		q := *p
+		q.Steps = p.Steps[2:]
+		rest = append(rest, &q)
+	}
+	if nErr == 0 || len(rest) == 0 {
+		return "no path for a failed read / a successful one"
+	}
+	isInput := func(t Term) bool {
+		cv, ok := t.(TConv)
+		return ok && isStringType(cv.To) && sameTerm(eraseEpochs(cv.X), eraseEpochs(data))
+	}
+	// the bytes read may be used as the text only: any other mention (a slice of them, a write into them) is not the unmodified file
+	for _, p := range rest {
+		bad := false
+		chk := func(t Term) {
+			if t == nil {
+				return
+			}
+			var walk func(t Term, underConv bool)
+			walk = func(t Term, underConv bool) {
+				if isInput(t) {
+					return
+				}
+				if sameTerm(eraseEpochs(t), eraseEpochs(data)) {
+					bad = true
+					return
+				}
+				mapKids(t, func(k Term) Term { walk(k, false); return k })
+			}
+			walk(t, false)
+		}
+		for _, st := range p.Steps {
+			chk(st.Cond.T)
+			chk(st.LHS)
+			chk(st.RHS)
+			if st.Call != nil {
+				chk(*st.Call)
+			}
+			if st.Blt != nil {
+				chk(*st.Blt)
+			}
+			if st.Kind == "loop" {
+				return "a loop after the read"
+			}
+		}
+		for _, t := range p.Vals {
+			chk(t)
+		}
+		if bad {
+			return "the bytes read are used other than as string(data)"
+		}
+	}
+	cases := 0
+	for _, s := range shortStrings("[{\na", c.depth(4, 6)) {
+		want, why := wrapperFold(c, po, "parseObject", s)
+		if why != "" || want.why != "" {
+			return "ParseObject cannot be folded: " + why + want.why
+		}
+		got, why := wrapperFoldPaths(c, rest, isInput, "parseObject", s)
+		if why != "" || got.why != "" {
+			return "the code after the read cannot be folded: " + why + got.why
+		}
+		if got != want {
+			return "input " + strconv.Quote(s) + ": ParseObject and the code after the read differ"
+		}
+		cases++
+	}
+	if cases == 0 {
+		return "nothing folded"
 	}
 	return ""
 }
@@ -1572,7 +1708,11 @@ func c20Formats(c *Ctx) {
 			}
 			// integers flowing into the message
 			var ints []Term
-			for _, a := range unpack(call.Args) {
+			fargs := unpack(call.Args)
+			if call.Fun.FullName() == "fmt.Errorf" {
+				fargs = numericArgs(fargs)
+			}
+			for _, a := range fargs {
 				collectInts(a, &ints)
 			}
 			if len(ints) == 0 {
@@ -1632,6 +1772,46 @@ func c20Formats(c *Ctx) {
 }
 
 // collectInts gathers the integer-typed leaves that are formatted into a message: arguments of Errorf/Sprintf and of Itoa/FormatInt.
+// numericArgs: the arguments of a formatting call that can print as numbers: with a constant format, those under the character
+// verbs %c, %q and %U are left out (an integer there prints as a character, not as a number).
+func numericArgs(args []Term) []Term {
+	if len(args) == 0 {
+		return args
+	}
+	format, ok := isConstStringTerm(args[0])
+	if !ok {
+		return args
+	}
+	var out []Term
+	rest := args[1:]
+	for i := 0; i < len(format); i++ {
+		if format[i] != '%' {
+			continue
+		}
+		i++
+		for i < len(format) && strings.ContainsRune("+-# 0123456789.", rune(format[i])) {
+			i++
+		}
+		if i >= len(format) {
+			break
+		}
+		if format[i] == '%' {
+			continue
+		}
+		if format[i] == '*' || format[i] == '[' {
+			return args // width from an argument / explicit indexes: not analysed, every argument counts
+		}
+		if len(rest) == 0 {
+			break
+		}
+		if !strings.ContainsRune("cqU", rune(format[i])) {
+			out = append(out, rest[0])
+		}
+		rest = rest[1:]
+	}
+	return append(out, rest...)
+}
+
 func collectInts(t Term, out *[]Term) {
 	switch x := t.(type) {
 	case TDeref:
@@ -1655,7 +1835,11 @@ func collectInts(t Term, out *[]Term) {
 	case TCall:
 		if x.Fun != nil {
 			switch x.Fun.FullName() {
-			case "strconv.Itoa", "strconv.FormatInt", "fmt.Sprintf", "fmt.Sprint":
+			case "fmt.Sprintf":
+				for _, a := range numericArgs(unpack(x.Args)) {
+					collectInts(a, out)
+				}
+			case "strconv.Itoa", "strconv.FormatInt", "fmt.Sprint":
 				for _, a := range unpack(x.Args) {
 					collectInts(a, out)
 				}
